@@ -177,8 +177,8 @@ def _check(case, chan_dir):
         with open(path2, "w", encoding="utf-8") as f:
             f.write(to_nt(kept))
         kw_f = dict(kw, graph_file_input=path2, instances_file_input=path)
-        kw_f.pop("raw_graph", None)
-        kw_f.pop("input_format", None)
+        for k_ in ("raw_graph", "input_format", "graph_list_of_files_input", "compression_mode"):
+            kw_f.pop(k_, None)
         t3, c3 = sut.shex(kw_f, acceptance_threshold=thr)
     if c3 is not None:
         labels.add("differential-run-crashed")
